@@ -159,11 +159,15 @@ class VCSAPI:
                 status, filepath = line.split(" ", 1)
                 status_items.append((status, filepath))
 
-        return [
-            filepath.strip()
-            for status, filepath in status_items
-            if filepath.strip() in required_files or status != "??"
-        ]
+        dirty_files: typ.List[str] = []
+        for status, filepath in status_items:
+            filepath = filepath.strip()
+            if status == "??" and filepath.endswith("/"):
+                # An untracked directory is listed as a whole, not file by file.
+                dirty_files.extend(req for req in sorted(required_files) if req.startswith(filepath))
+            elif filepath in required_files or status != "??":
+                dirty_files.append(filepath)
+        return dirty_files
 
     def ls_tags(self) -> typ.List[str]:
         """List vcs tags on all branches."""
